@@ -27,8 +27,9 @@ const PropertyInfo kInfo = {
     "a multiple of 4, damaged eph:// prefix). mode raw-payload: the records are the payload bytes (base64-wrapped by the harness; optionally the version byte forced to 1..4). "
     "mode raw-string: the records are the string itself (optionally prefixed with eph:// and/or mapped onto the base64 alphabet). "
     "Oracle: returns a manifest or throws std::invalid_argument; any other exception, sanitizer report or hang is a violation; an accepted "
-    "manifest re-encodes and decodes to itself. Inputs whose expiry field exceeds +-9223372036 s are first tried in a forked child so that a "
-    "sanitizer abort becomes a reported failure (C18:expiry-overflow) instead of ending the run. "
+    "manifest re-encodes and decodes to itself. Inputs whose expiry field exceeds +-9223372036 s are tried in a forked child (the first 24 per direction "
+    "and process; in-process once those survived) so that a sanitizer abort becomes a reported failure (C18:expiry-overflow) instead of "
+    "ending the run. "
     "Non-trivial: the input reached the binary parser (prefix and base64 valid, >= 88 payload bytes). Distinct = hash of the decoded case."};
 
 namespace {
@@ -82,6 +83,7 @@ ChildOutcome decode_in_child(const std::string& s) {
         ::dup2(fds[1], 2);  // sanitizer report -> pipe
         __sanitizer_set_death_callback(nullptr);  // no crash.tape / fuzzer artifact from the child
         ::signal(SIGABRT, SIG_DFL);
+        ::signal(SIGALRM, SIG_DFL);
         ::alarm(20);
         int code = 0;
         try {
@@ -387,7 +389,21 @@ void run_case(Ctx& c) {
         c.label("expiry_out_of_range");
         c.note("expiry-field=%016llx", static_cast<unsigned long long>(get_expiry(payload)));
         if (c.is_known(kOverflowSig)) c.fail(kOverflowSig, "excluded");  // only reachable when a text corruption re-created the shape
-        ChildOutcome co = decode_in_child(s);
+        // A fork of a sanitized process costs tens of milliseconds, so only the first kProbe inputs of each
+        // overflow direction are tried in a child; once that many have survived (the conversion is evidently
+        // guarded) later ones run in-process.  Should one of those abort after all, the saved crash tape is
+        // replayed in a fresh process, where it takes the child route again and reports the named signature.
+        static unsigned survived[2] = {0, 0};
+        constexpr unsigned kProbe = 24;
+        unsigned dir = static_cast<std::int64_t>(get_expiry(payload)) < 0 ? 1 : 0;
+        ChildOutcome co;
+        if (survived[dir] >= kProbe) {
+            co.kind = ChildOutcome::Returned;
+            c.label("expiry_out_of_range_inprocess");
+        } else {
+            co = decode_in_child(s);
+            if (co.kind == ChildOutcome::Returned || co.kind == ChildOutcome::InvalidArgument) ++survived[dir];
+        }
         switch (co.kind) {
             case ChildOutcome::Died:
                 c.fail(kOverflowSig, "decode_manifest died on an expiry field of " + std::to_string(static_cast<std::int64_t>(get_expiry(payload))) +
